@@ -35,11 +35,12 @@ def parseDiffs (j : Json) : Except String Diff.DiffList := do
 
 def handleDiff (j : Json) : Except String Json := do
   let ds ← parseDiffs j
-  let es := Diff.editsOfDiffs ds
+  let es := Diff.editsOfRaw ds
   let orig := Diff.src ds
   pure <| Json.mkObj [
     ("edits", Json.arr (es.map editJ).toArray),
     ("src", strJ orig), ("dst", strJ (Diff.dst ds)),
+    ("split", Json.arr ((Diff.splitDiffs ds).map fun (o, t) => Json.mkObj [("o", toJson (match o with | .eq => "eq" | .del => "del" | .ins => "ins")), ("t", strJ t)]).toArray),
     ("hyp", Json.mkObj [("Normal", toJson (Diff.noDelDelB ds))]),
     ("concl", Json.mkObj [
       ("apply", toJson (applyEdits orig es == Diff.dst ds)),
@@ -59,6 +60,19 @@ def handleIsSpace (j : Json) : Except String Json := do
   let hi ← j.getObjValAs? Nat "hi"
   let xs := (List.range hi).filter fun n => Trim.pyIsSpace (Char.ofNat n) && (Char.ofNat n).toNat == n
   pure <| Json.mkObj [("spaces", toJson xs)]
+
+def handleIsWord (j : Json) : Except String Json := do
+  -- the ranges of code points below `hi` that the model's table classifies as `\w`, as [lo, hi] pairs
+  let hi ← j.getObjValAs? Nat "hi"
+  let step := fun (acc : List (Nat × Nat) × Option Nat) (n : Nat) =>
+    let w := pyIsWord (Char.ofNat n) && (Char.ofNat n).toNat == n
+    match acc.2, w with
+    | none, true => (acc.1, some n)
+    | some a, false => ((a, n - 1) :: acc.1, none)
+    | _, _ => acc
+  let (rs, last) := (List.range hi).foldl step ([], none)
+  let rs := match last with | some a => (a, hi - 1) :: rs | none => rs
+  pure <| Json.mkObj [("ranges", toJson (rs.reverse.map fun (a, b) => [a, b]))]
 
 /-! ### init -/
 partial def parseJ (j : Json) : Except String J := do
@@ -208,6 +222,21 @@ def handleReview (j : Json) : Except String Json := do
     let (s1, ap, sk) := s0.applyActions acts
     pure <| Json.mkObj [("doc", DriverDoc.docFullJ s1.doc), ("applied", toJson ap), ("skipped", toJson sk)]
 
+def handleDiffApply (j : Json) : Except String Json := do
+  let d0 ← DriverDoc.parseDoc (← j.getObjVal? "doc")
+  let author ← getStr j "author"
+  let ds ← parseDiffs j
+  let es := Diff.editsOfRaw ds
+  let notes := Diff.notesOfRaw ds
+  let edits : List Doc.IEdit := (es.zip notes).map fun (e, n) =>
+    { index := e.idx, target := e.target, new := e.new, comment := some n.toList }
+  let s0 := Doc.Sess.open d0 author "DATE".toList
+  let (s1, ap, sk) := Doc.applyEditsIndexed s0 edits
+  pure <| Json.mkObj [("applied", toJson ap), ("skipped", toJson sk),
+    ("edits", Json.arr ((es.zip notes).map fun (e, n) => Json.mkObj [("idx", toJson e.idx), ("target", strJ e.target), ("new", strJ e.new), ("comment", toJson n)]).toArray),
+    ("src", strJ (Diff.src ds)), ("raw_before", strJ (Doc.extractText false s0.doc)),
+    ("clean_after", strJ (Doc.extractText true s1.doc)), ("doc", DriverDoc.docFullJ s1.doc)]
+
 def handle (j : Json) : Except String Json := do
   let op ← j.getObjValAs? String "op"
   match op with
@@ -215,11 +244,13 @@ def handle (j : Json) : Except String Json := do
   | "diff" => handleDiff j
   | "trim" => handleTrim j
   | "isspace" => handleIsSpace j
+  | "isword" => handleIsWord j
   | "init" => handleInitOp j
   | "extract" => handleExtract j
   | "normalize" => handleNormalize j
   | "apply_indexed" => handleApplyIndexed j
   | "review" => handleReview j
+  | "diff_apply" => handleDiffApply j
   | _ => throw s!"bad-op {op}"
 
 partial def loop (h : IO.FS.Stream) (out : IO.FS.Stream) : IO Unit := do
